@@ -7,9 +7,10 @@
    alone (C05_cw_full: the whole clause); defining computations of Copeland, Schulze (the table of
    strongest beat-paths, ranking independent of the iteration order), Kemeny-Young (common first
    places of the best permutations) and ranked pairs (locked total order); nobody dropped for
-   minimax, Schulze, ranked pairs, Kemeny-Young.  The remaining clauses (Smith-efficiency of
-   ranked pairs / Kemeny / Schulze, nobody dropped for Copeland second order, the run-off hybrids)
-   are decided per case by the verified-model correspondence plus brute-force references in the check
+   Copeland (raw and second order), minimax, Schulze, ranked pairs, Kemeny-Young (C05_nobody_dropped_full: the whole
+   clause); Smith efficiency of Copeland (raw and second order), Schulze (by the number of path-wins), ranked pairs
+   (three scorers) and Kemeny-Young, also for a reported tie (Proofs/SmithEff_proofs.v).  The run-off hybrids
+   (Benham, Tideman alternative) have no Coq model and are decided per case on the implementation by the check
    (C05 evidence: "partial"). *)
 From Coq Require Import ZArith List Arith.
 From VL Require Import Prelude.PyDict Model.GetNBest Model.Condorcet Proofs.Condorcet_proofs Proofs.CopelandMono_proofs Proofs.SmithCopeland_proofs Proofs.Minimax_proofs Proofs.Schulze_proofs.
@@ -258,6 +259,101 @@ Proof.
   destruct Hx as [<-|[<-|[<-|[]]]]; [vm_compute; reflexivity|vm_compute; reflexivity|congruence].
 Qed.
 
+(* ---------------------------------------------------------------- Smith efficiency of Schulze, ranked pairs, Kemeny-Young;
+   nobody dropped for Copeland (Proofs/SmithEff_proofs.v).  The Smith set is [smith_schwartz v true], the set SmithSet
+   computes, proved in C06 to be the smallest dominating set. *)
+From VL Require Import Proofs.SmithEff_proofs.
+
+(* Schulze as votelib ranks it - by the NUMBER of path-wins (docs/C17.md) - is still Smith-efficient, whatever order the
+   candidate set is iterated in: no beat-path leads from outside the Smith set into it, so a member path-beats every
+   outsider and an outsider path-beats outsiders only; a member has at least |outside| path-wins, an outsider fewer. *)
+Theorem C05_smith_schulze : forall (v : pvotes) (order : list C) (w : C),
+  NoDup (map fst v) -> (forall p n, In (p, n) v -> 0 <= n) -> (2 <= length (candidates v))%nat ->
+  schulze v order 1 = [Cand w] -> In w (smith_schwartz v true).
+Proof. intros v order w Hnd Hnn H2. exact (schulze_in_smith v Hnd Hnn H2 order w). Qed.
+
+(* the count argument itself: every member of the Smith set has strictly more path-wins than every other candidate *)
+Theorem C05_smith_schulze_gap : forall (v : pvotes) (order : list C) (a x : C),
+  NoDup (map fst v) -> (forall p n, In (p, n) v -> 0 <= n) -> (2 <= length (candidates v))%nat ->
+  In a (smith_schwartz v true) -> In x (candidates v) -> ~ In x (smith_schwartz v true) ->
+  (length (opponents (widest_paths v order) x) < length (opponents (widest_paths v order) a))%nat.
+Proof. intros v order a x Hnd Hnn H2. exact (path_wins_gap v Hnd Hnn H2 order a x). Qed.
+
+(* ranked pairs, ALL THREE scorers (pairwise opposition included: a pair that loses its contest is locked only along a
+   path that exists already): no pair is ever locked from outside the Smith set into it, every member is locked over
+   every outsider, and the head of the ranking lies in the Smith set *)
+Theorem C05_smith_ranked_pairs : forall (v : pvotes) (s : scorer) (w : C),
+  (forall p n, In (p, n) v -> 0 <= n) -> (2 <= length (candidates v))%nat ->
+  ranked_pairs s v 1 = CR_ok [Cand w] -> In w (smith_schwartz v true).
+Proof. intros v s w Hnn H2. exact (ranked_pairs_in_smith v s Hnn H2 w). Qed.
+
+Theorem C05_smith_ranked_pairs_locked : forall (v : pvotes) (s : scorer) (a b : C),
+  (forall p n, In (p, n) v -> 0 <= n) -> (2 <= length (candidates v))%nat ->
+  In a (smith_schwartz v true) -> In b (candidates v) -> ~ In b (smith_schwartz v true) ->
+  In (a, b) (lock_pairs (rp_pairs s v)).
+Proof. intros v s a b Hnn H2. exact (rp_smith_locked v s Hnn H2 a b). Qed.
+
+(* Kemeny-Young: in a best ranking an outsider never stands directly above a member of the Smith set (swapping them
+   gains votes), so the members come first and the answer for one seat is a member - no hypothesis on the counts *)
+Theorem C05_smith_kemeny : forall (v : pvotes) (w : C),
+  (2 <= length (candidates v))%nat -> kemeny v 1 = CR_ok [Cand w] -> In w (smith_schwartz v true).
+Proof. intros v w H2. exact (kemeny_in_smith v H2 w). Qed.
+
+Theorem C05_smith_kemeny_order : forall (v : pvotes) (p l1 : list C) (x y : C) (l2 : list C),
+  (2 <= length (candidates v))%nat -> kemeny_max v p -> p = l1 ++ x :: y :: l2 ->
+  In y (smith_schwartz v true) -> In x (smith_schwartz v true).
+Proof. intros v p l1 x y l2 H2. exact (kemeny_max_smith_first v H2 p l1 x y l2). Qed.
+
+(* Copeland, raw and with second-order tie-breaking: with as many seats as candidates every candidate is listed (as a plain
+   entry: get_n_best returns no tie object then, so the second-order branch is not taken) *)
+Theorem C05_copeland2_nobody_dropped : forall (v : pvotes) (so : bool) (x : C),
+  NoDup (map fst v) -> (forall p n, In (p, n) v -> 0 <= n) ->
+  In x (candidates v) -> In (Cand x) (copeland so v (length (candidates v))).
+Proof. intros v so x Hnd Hnn. exact (copeland_nobody_dropped v so x Hnd Hnn). Qed.
+
+(* the whole nobody-dropped clause, as it was stated before it was proved *)
+Theorem C05_nobody_dropped_full : C05_nobody_dropped_full_statement.
+Proof.
+  intros v x Hwf Hx n flat. destruct (C05_nobody_dropped_full_schulze_minimax v x Hwf Hx) as (Hs & Hm).
+  destruct Hwf as (Hnd & Hnn & H2). split; [|split; [exact Hs|exact Hm]].
+  apply in_flat_map. exists (Cand x). split; [|left; reflexivity]. exact (copeland_nobody_dropped v true x Hnd Hnn Hx).
+Qed.
+
+(* the same for a REPORTED TIE for the seat: whatever stands in the first place of the one-seat answer - the plain winner or
+   every member of the tie object - lies in the Smith set; Copeland with and without second-order tie-breaking (the
+   second-order scores are kept for the first-order leaders only), Schulze for every iteration order.  Ranked pairs and
+   Kemeny-Young never answer with a tie object, so C05_smith_ranked_pairs / C05_smith_kemeny already cover every answer. *)
+Theorem C05_smith_copeland_first : forall (v : pvotes) (so : bool),
+  NoDup (map fst v) -> (forall p n, In (p, n) v -> 0 <= n) -> (2 <= length (candidates v))%nat ->
+  incl (first_place (copeland so v 1)) (smith_schwartz v true).
+Proof. intros v so Hnd Hnn H2. exact (copeland_first_in_smith v Hnd Hnn H2 so). Qed.
+
+Theorem C05_smith_schulze_first : forall (v : pvotes) (order : list C),
+  NoDup (map fst v) -> (forall p n, In (p, n) v -> 0 <= n) -> (2 <= length (candidates v))%nat ->
+  incl (first_place (schulze v order 1)) (smith_schwartz v true).
+Proof. intros v order Hnd Hnn H2. exact (schulze_first_in_smith v Hnd Hnn H2 order). Qed.
+
+(* non-vacuity: five candidates, a three-candidate top cycle 1 > 2 > 3 > 1 over 4 and 5, no Condorcet winner; the Smith set is
+   {1, 2, 3} and each method elects one of its members *)
+Definition C05_smith_example : pvotes := mk_pv
+  [(1, 2, 7); (2, 1, 4); (2, 3, 8); (3, 2, 3); (3, 1, 6); (1, 3, 5);
+   (1, 4, 6); (4, 1, 5); (2, 4, 9); (4, 2, 2); (3, 4, 6); (4, 3, 5);
+   (1, 5, 7); (5, 1, 4); (2, 5, 6); (5, 2, 5); (3, 5, 10); (5, 3, 1); (4, 5, 6); (5, 4, 5)].
+Example C05_smith_example_runs :
+  well_formed C05_smith_example /\ condorcet_winner C05_smith_example = [] /\
+  smith_schwartz C05_smith_example true = [1%positive; 2%positive; 3%positive] /\
+  schulze C05_smith_example (candidates C05_smith_example) 1 = [Cand 1%positive] /\
+  ranked_pairs WinningVotes C05_smith_example 1 = CR_ok [Cand 1%positive] /\
+  ranked_pairs Margins C05_smith_example 1 = CR_ok [Cand 1%positive] /\
+  ranked_pairs PairwiseOpposition C05_smith_example 1 = CR_ok [Cand 1%positive] /\
+  kemeny C05_smith_example 1 = CR_ok [Cand 1%positive] /\
+  copeland true C05_smith_example 1 = [TieR [1%positive; 2%positive; 3%positive]] /\
+  copeland true C05_smith_example 5 = [Cand 1%positive; Cand 2%positive; Cand 3%positive; Cand 4%positive; Cand 5%positive].
+Proof.
+  split; [split; [apply nodup_keys_b_sound; vm_compute; reflexivity|split; [apply nonneg_b_sound; vm_compute; reflexivity|vm_compute; lia]]|].
+  vm_compute. repeat split; reflexivity.
+Qed.
+
 Print Assumptions C05_cw_copeland.
 Print Assumptions C05_copeland_score.
 Print Assumptions C05_smith_copeland.
@@ -283,3 +379,13 @@ Print Assumptions C05_cw_ranked_pairs.
 Print Assumptions C05_ranked_pairs_nobody_dropped.
 Print Assumptions C05_cw_all_but_schulze.
 Print Assumptions C05_cw_full.
+Print Assumptions C05_smith_schulze.
+Print Assumptions C05_smith_schulze_gap.
+Print Assumptions C05_smith_ranked_pairs.
+Print Assumptions C05_smith_ranked_pairs_locked.
+Print Assumptions C05_smith_kemeny.
+Print Assumptions C05_smith_kemeny_order.
+Print Assumptions C05_copeland2_nobody_dropped.
+Print Assumptions C05_nobody_dropped_full.
+Print Assumptions C05_smith_copeland_first.
+Print Assumptions C05_smith_schulze_first.
